@@ -52,6 +52,8 @@ def spec_items(tier):
     R4 = [F(-2), F(-1), F(0), F(1)]
     G = [F(1, 2), F(9, 10), F(1)]
     yield from build.enum_mdps(1, AS, 0, R3, [(), (0,)], build.INIT_MENU[1], G)
+    # undiscounted value iteration needs ~1/p sweeps through a probability-p exit: tiny probabilities only when discounted
+    yield from (it for it in build.edge_mdps() if it[5] > 0 and (it[5] < 1 or not build.has_tiny_probability(it)))
     if tier == 'quick':
         yield from build.enum_mdps(2, AS, 1, R3, [(), (1,)], [build.INIT_MENU[2][0], build.INIT_MENU[2][2]],
                                    [F(9, 10), F(1)])
@@ -222,10 +224,21 @@ def check(item, tier):
         eps2 = EPS_OTHER[ei]
         runs = [('vi_vec', 'vectorized', 1e-10), ('vi_dict', 'dict', 1e-10),
                 ('vi_vec_e', 'vectorized', eps2) if ei == 0 else ('vi_dict_e', 'dict', eps2)]
+        # planner objects are reusable: on every other spec the same planner instance first plans a
+        # same-shaped "sibling" problem (all rewards lowered by 5), so state kept across calls is exercised
+        reuse = (vi + ui + ei) % 2 == 0
+        sibling = None
+        if reuse:
+            sib_T = tuple(tuple((a, d, (tuple(x - 5 for x in rw) if isinstance(rw, tuple) else rw - 5)) for a, d, rw in row)
+                          for row in spec_item[2])
+            sibling = build.SpecMDP(Spec(spec_item[:2] + (sib_T,) + spec_item[3:]), slabel, alabel, explicit)
+            r.count('reused_planner_instances')
         for name, version, eps in runs:
             try:
-                res = ValueIteration(max_iterations=20000, max_residual=eps, undefined_value=undef,
-                                     _version=version).plan_on(mdp)
+                planner = ValueIteration(max_iterations=20000, max_residual=eps, undefined_value=undef, _version=version)
+                if sibling is not None:
+                    planner.plan_on(sibling)
+                res = planner.plan_on(mdp)
             except Exception as e:  # noqa
                 r.violation(f'{name}:exception', {'error': repr(e)}, item)
                 continue
@@ -250,7 +263,13 @@ def check(item, tier):
         # policy iteration
         pi_ok = True
         try:
-            res = PolicyIteration(max_iterations=500, undefined_value=undef).plan_on(mdp)
+            planner = PolicyIteration(max_iterations=500, undefined_value=undef)
+            if sibling is not None:
+                try:
+                    planner.plan_on(sibling)
+                except Exception:
+                    pass
+            res = planner.plan_on(mdp)
             r.count('transitions')
         except Exception as e:
             pi_ok = False
